@@ -131,9 +131,19 @@ func run(t Trial) *stat.Failure {
 		rogger.VerifReset()
 	}()
 	{
+		// exactly one flusher must be running. The previous trial's flusher has acknowledged
+		// its flush (VerifStopFlusher waited for that) but its goroutine may not have left
+		// flushLog yet when the machine is busy: give it a moment before judging.
 		buf := make([]byte, 1<<20)
-		nn := runtime.Stack(buf, true)
-		if c := strings.Count(string(buf[:nn]), "rogger.flushLog("); c != 1 {
+		c := 0
+		for attempt := 0; attempt < 400; attempt++ {
+			nn := runtime.Stack(buf, true)
+			if c = strings.Count(string(buf[:nn]), "rogger.flushLog("); c == 1 {
+				break
+			}
+			time.Sleep(5 * time.Millisecond)
+		}
+		if c != 1 {
 			rogger.FlushLogger()
 			return stat.Failf("harness-failure", "%d flusher goroutines alive at the start of a trial (queue length %d)", c, rogger.VerifQueueLen())
 		}
